@@ -1080,9 +1080,9 @@ func (self *PathNode) Field(id thrift.FieldID, opts *Options) *PathNode {
 		return err
 	}
 	// fast path: use id to find the key.
-	if opts.StoreChildrenById && int(id) <= StoreChildrenByIdShreshold {
+	if opts.StoreChildrenById && int(id) < StoreChildrenByIdShreshold && int(id) < len(self.Next) {
 		v := &self.Next[id]
-		if v.Path.t != 0 && v.Path.id() == id {
+		if v.Path.t == PathFieldId && v.Path.id() == id {
 			return v
 		}
 	}
@@ -1112,11 +1112,19 @@ func (self *PathNode) SetField(id thrift.FieldID, val Node, opts *Options) (bool
 		return false, err
 	}
 	// fast path: use id to find the key.
-	if opts.StoreChildrenById && int(id) <= StoreChildrenByIdShreshold {
+	if opts.StoreChildrenById && int(id) < StoreChildrenByIdShreshold && int(id) < len(self.Next) {
 		v := &self.Next[id]
-		exist := v.Path.t != 0
-		v.Node = val
-		return exist, nil
+		if v.Path.t == PathFieldId && v.Path.id() == id {
+			v.Node = val
+			return true, nil
+		}
+		if v.Path.t == 0 {
+			// empty slot of the id-indexed storage
+			v.Path = NewPathFieldId(id)
+			v.Node = val
+			v.Next = v.Next[:0]
+			return false, nil
+		}
 	}
 	// slow path: use linear search to find the id.
 	for i := StoreChildrenByIdShreshold; i < len(self.Next); i++ {
